@@ -352,9 +352,75 @@ fn store_mode(o: &Opts) {
     e.finish(&o.out, "store", o.seed);
 }
 
+// ---------------------------------------------------------------- C18: signatures (differential only: Ed25519 is not modelled)
+fn sigs(o: &Opts) {
+    use crypto::{Digest, Signature};
+    let mut e = Emit::new("CorrComp");
+    let flip = |b: &mut [u8], bit: usize| { b[bit / 8] ^= 1 << (bit % 8); };
+    let sig_bytes = |s: &Signature| -> Vec<u8> { bincode::serialize(s).unwrap() };
+    let sig_from = |b: &[u8]| -> Signature { bincode::deserialize(b).unwrap() };
+    let mut seen = 0u64;
+    for k in 0..o.cases {
+        if let Some(only) = o.only { if only != k { continue; } }
+        let mut rng = case_rng(o.seed, 18, k as u64);
+        let m = rng.gen_range(1, 6usize);
+        let keys = sorted_keys(&mut rng, m + 1);
+        let mut d = [0u8; 32]; for x in d.iter_mut() { *x = rng.gen(); }
+        let digest = Digest(d);
+        let honest: Vec<(crypto::PublicKey, Signature)> = (0..m).map(|i| (keys[i].0, Signature::new(&digest, &keys[i].1))).collect();
+        // f1, f2: honest signatures verify, alone and as a batch (also the empty batch: vacuously all members verify)
+        let f1 = honest.iter().all(|(pk, s)| s.verify(&digest, pk).is_ok());
+        let f2 = Signature::verify_batch(&digest, &honest).is_ok() && Signature::verify_batch(&digest, &Vec::<(crypto::PublicKey, Signature)>::new()).is_ok();
+        // f3: single-bit flips of signature, digest or key are rejected individually
+        let mut f3 = true; let mut flips = vec![];
+        for _ in 0..24 {
+            let i = rng.gen_range(0, m); let (pk, s) = honest[i].clone();
+            let what = rng.gen_range(0, 3);
+            let ok = match what {
+                0 => { let mut b = sig_bytes(&s); let bit = if rng.gen_bool(0.3) { 509 + rng.gen_range(0, 3) } else { rng.gen_range(0, 512) }; flip(&mut b, bit); flips.push(format!("sig bit {}", bit)); sig_from(&b).verify(&digest, &pk).is_ok() }
+                1 => { let mut dd = digest.0; let bit = rng.gen_range(0, 256); flip(&mut dd, bit); flips.push(format!("digest bit {}", bit)); s.verify(&Digest(dd), &pk).is_ok() }
+                _ => { let mut kk = pk.0; let bit = rng.gen_range(0, 256); flip(&mut kk, bit); flips.push(format!("key bit {}", bit)); s.verify(&digest, &crypto::PublicKey(kk)).is_ok() }
+            };
+            if ok { f3 = false; }
+        }
+        // f4: a batch with corrupted members is accepted exactly when every member verifies individually
+        let mut f4 = true; let mut corrs = vec![];
+        for _ in 0..16 {
+            let mut batch = honest.clone();
+            let ncorr = if rng.gen_bool(0.2) { 0 } else if rng.gen_bool(0.15) { m } else { 1 };
+            let mut pos: Vec<usize> = (0..m).collect(); use rand::seq::SliceRandom; pos.shuffle(&mut rng);
+            for &p in pos.iter().take(ncorr) {
+                let kind = rng.gen_range(0, 6);
+                corrs.push(format!("pos {} kind {}", p, ["sig bit", "sig top bits (malformed scalar)", "key bit (possibly not a curve point)", "signature over another digest", "signature by another key", "all-zero signature"][kind]));
+                match kind {
+                    0 => { let mut b = sig_bytes(&batch[p].1); flip(&mut b, rng.gen_range(0, 512)); batch[p].1 = sig_from(&b); }
+                    1 => { let mut b = sig_bytes(&batch[p].1); flip(&mut b, 509 + rng.gen_range(0, 3)); batch[p].1 = sig_from(&b); }
+                    2 => { flip(&mut batch[p].0 .0, rng.gen_range(0, 256)); }
+                    3 => { let mut dd = digest.0; dd[0] ^= 1; batch[p].1 = Signature::new(&Digest(dd), &keys[p].1); }
+                    4 => { batch[p].1 = Signature::new(&digest, &keys[m].1); }
+                    _ => { batch[p].1 = Signature::default(); }
+                }
+            }
+            let each = batch.iter().all(|(pk, s)| s.verify(&digest, pk).is_ok());
+            let all = Signature::verify_batch(&digest, &batch).is_ok();
+            if each != all { f4 = false; }
+        }
+        // f5: the signature service signs what Signature::new signs (Ed25519 is deterministic), and it verifies
+        let rt = fresh_rt();
+        let f5 = rt.block_on(async { let mut svc = crypto::SignatureService::new(clone_secret(&keys[0].1)); let s = svc.request_signature(digest.clone()).await;
+                                     s.verify(&digest, &keys[0].0).is_ok() && sig_bytes(&s) == sig_bytes(&honest[0].1) });
+        e.stat(&format!("batch size {}", m), 1); seen += 1;
+        let fl = |b: bool| if b { "1" } else { "0" };
+        e.case(k, "", &format!("verdict_of [{}; {}; {}; {}; {}]", fl(f1), fl(f2), fl(f3), fl(f4), fl(f5)), json!({"case": k, "batch_size": m, "bit_flips": flips, "batch_corruptions": corrs, "flags": [f1, f2, f3, f4, f5]}));
+    }
+    e.stat("distinct_nontrivial", seen);
+    e.finish(&o.out, "sigs", o.seed);
+}
+
 fn main() {
     let o = opts();
     match o.mode.as_str() {
+        "sigs" => sigs(&o),
         "quorum" => quorum(&o),
         "leader" => leader(&o),
         "aggregator" => aggregator(&o),
